@@ -113,7 +113,9 @@ def crash_case(plan, split, scenario):
         q1, _ = child("query", d, split, "A", "False")
         q2, _ = child("query", d, split, "A", "False")
         qo, _ = child("query", d, split, "B", "True")
-        info["first"], info["second"], info["other"] = q1, q2, qo
+        # a later run that opens the directory with the library's default layout detection (directory_split='auto')
+        qa, _ = child("query", d, "auto", "B", "True")
+        info["first"], info["second"], info["other"], info["other_auto"] = q1, q2, qo, qa
 
         def cls(q):
             if q.get("outcome") in ("old", "new", "searched") and q.get("valid", False):
@@ -122,7 +124,8 @@ def crash_case(plan, split, scenario):
                 return "searched"
             return "error"
         case = {"kind": "crash", "plan": plan, "hasold": hasold, "final": final, "first": cls(q1), "second": cls(q2),
-                "other": "hit" if qo.get("outcome") == "old" and qo.get("valid") else ("searched" if qo.get("outcome") == "searched" else "error")}
+                "other": "hit" if qo.get("outcome") == "old" and qo.get("valid") else ("searched" if qo.get("outcome") == "searched" else "error"),
+                "other_auto": "hit" if qa.get("outcome") == "old" and qa.get("valid") else ("searched" if qa.get("outcome") == "searched" else "error")}
         return case, info
     finally:
         shutil.rmtree(d, ignore_errors=True)
